@@ -29,6 +29,26 @@ CHECKS = {
         ref="DESIGN.md 4 (C02)"),
 }
 
+CHECKS["C03"] = dict(
+    text="Bounded symbolic verification: type_checker::type_check with everything below it (unify, normalize_weak_head, syntactically_equal, "
+         "open, shifts; hole cells as per-path store) is executed by path forking on every closed parser-shaped program of up to 4 (quick) / 5 "
+         "(thorough) nodes, holes and omitted annotations included, all scalars symbolic. Whenever it accepts with all holes resolved, an independent "
+         "reference checker for explicitly typed terms must accept the elaborated term and its type must be convertible with the reported one; z3 "
+         "decides each path and every counterexample is replayed on the compiled checker. One listed known finding (annotations are never checked).",
+    note="Trusted: executor + library models (validated each run on ~150-800 random programs against the compiled type_check, elaboration compared "
+         "node by node), the reference checker (Type:Type, beta/delta/group unfolding, lambda annotations ignored in conversion), z3. Results with "
+         "unresolved holes and programs beyond the node budget are outside the claim; deeper unifier defects are decided at the unify level by C12.",
+    ref="DESIGN.md 4 (C03)")
+CHECKS["C12"] = dict(
+    text="Bounded symbolic verification of unifier::unify: executed by path forking with hole cells as tracked store locations on (a) independent "
+         "pairs of terms with holes, (b) pattern/instance pairs where the pattern is the instance with holes punched at symbolic positions with symbolic "
+         "shifts, in both argument orders, under four definition contexts, plus reflexivity on hole-free terms. After every successful unification z3 "
+         "decides: the sides are convertible (reference normaliser) once solutions are filled in, every solution is in scope for every occurrence of its "
+         "hole, the solution graph is acyclic, the context is unchanged.",
+    note="Trusted: executor + library models (validated each run against the compiled unify incl. the cells it wrote), reference conversion, z3. "
+         "Node budgets are small (2+2 quick, 3+3 thorough); holes shared between occurrences and larger terms are outside the claim.",
+    ref="DESIGN.md 4 (C12)")
+
 NOT_APPLICABLE = {
     "C16": "printer round trip needs the packrat parser on 10-25 tokens; symbolic execution of the parser does not reach that (DESIGN.md section 6)",
     "C17": "asymptotic running time over n in the thousands is not observable by bounded symbolic execution (DESIGN.md section 6)",
